@@ -450,6 +450,37 @@ pub fn crafted_lists() -> Vec<(Vec<u8>, bool)> {
     }
     out
 }
+/// valid files whose checksum field uses the short encoding `62 xx` (possible when the first wire byte of the checksum is 0):
+/// the transaction id is searched until the checksum allows it
+pub fn crafted_short_crc() -> Vec<Vec<u8>> {
+    let mut out = vec![];
+    for body in ["72 63 02 01 71 01", "72 63 07 01 77 01 02 53 01 01 70 01 01", "72 63 01 01 76 01 01 02 31 02 32 01 01"] {
+        let mut found = 0;
+        for t in 0..=65535u32 {
+            let mut m = hex("76 03");
+            m.push((t >> 8) as u8);
+            m.push(t as u8);
+            m.extend(hex("62 00 62 00"));
+            m.extend(hex(body));
+            let d = crc16(&m);
+            if d & 0xff == 0 {
+                m.extend([0x62, (d >> 8) as u8, 0x00]);
+                out.push(m);
+                found += 1;
+                if found == 2 {
+                    break;
+                }
+            }
+        }
+    }
+    // two-message files: short-crc message first / last
+    if out.len() >= 2 {
+        let a = out[0].clone();
+        let b = out[2 % out.len()].clone();
+        out.push([a.clone(), b.clone()].concat());
+    }
+    out
+}
 fn super_tlf(ty: u8, len: u64) -> Vec<u8> {
     tlf(ty, len, 0, true)
 }
@@ -457,10 +488,41 @@ fn super_tlf(ty: u8, len: u64) -> Vec<u8> {
 // ------------------------------------------------------------------------------------------------
 // mutation families
 // ------------------------------------------------------------------------------------------------
+/// valid re-encodings of `p` in which one single-byte TLF is stretched to n bytes with zero leading length nibbles
+pub fn long_tlf_variants(p: &[u8], ns: &[usize]) -> Vec<Vec<u8>> {
+    let mut out = vec![];
+    for e in all_elems(p) {
+        if e.ty == 0xff || e.tlf_len != 1 {
+            continue;
+        }
+        for &n in ns {
+            let b0 = p[e.pos];
+            let ty = (b0 >> 4) & 7;
+            let val: u64 = if ty == 7 { (b0 & 15) as u64 } else { (b0 & 15) as u64 - 1 + n as u64 };
+            if ty == 4 {
+                continue; // multi-byte boolean TLFs are reserved
+            }
+            let mut t = vec![0x80 | (ty << 4)];
+            let nn = n - 1;
+            for k in 0..nn {
+                let shift = 4 * (nn - 1 - k);
+                let nib = if shift >= 64 { 0 } else { ((val >> shift) & 15) as u8 };
+                t.push(if k + 1 < nn { 0x80 } else { 0 } | nib);
+            }
+            let mut q = p.to_vec();
+            q.splice(e.pos..e.pos + 1, t);
+            fix_crcs(&mut q);
+            out.push(q);
+        }
+    }
+    out
+}
+
 /// `f(x, class)`; class 0 valid base, 1 structural corruption, 2 data corruption, 3 truncation/extension, 4 bomb, 5 random multi
 pub fn parser_inputs(tier: &str, rng: &mut Rng, f: &mut dyn FnMut(&[u8], u8)) {
     let thorough = tier == "thorough";
     let mut bases: Vec<Vec<u8>> = corpus_payloads();
+    bases.extend(crafted_short_crc());
     bases.sort_by_key(|b| b.len());
     // generated valid files
     let ngen = if thorough { 300 } else { 60 };
